@@ -210,7 +210,7 @@ pub fn run(args: &[String]) -> i32 {
     let budget = arg_u64(args, "--budget", 400_000).to_string();
     let seed = arg_u64(args, "--seed", 1).to_string();
     let mut o = Out::create(arg(args, "--out").expect("--out"));
-    let exe = std::env::current_exe().unwrap();
+    let exe = crate::util::self_exe();
     let mut next = 0usize;
     let mut reports: Vec<J> = Vec::new();
     while next < funcs.len() {
